@@ -236,7 +236,7 @@ const markerText = "MARKER-TEXT-MUST-NOT-SURFACE"
 
 func c04Case(ctx *core.Ctx, out *core.Out, h int, server, comp bool, f nextFrame) {
 	class, kind, topBit := classify(h, server, comp, f)
-	desc := map[string]interface{}{"history": historyNames[h], "reader_is_server": server, "compression": comp, "frame": f, "class": []string{"LEGAL", "VIOLATION", "UNSPECIFIED"}[class], "kind": kind}
+	desc := map[string]interface{}{"message_in_progress_is_compressed": comp && class == rmViolation && (f.Op+f.Rsv+f.LenCls)%2 == 0 && h >= 3, "history": historyNames[h], "reader_is_server": server, "compression": comp, "frame": f, "class": []string{"LEGAL", "VIOLATION", "UNSPECIFIED"}[class], "kind": kind}
 	if f.LenCls >= 0 {
 		desc["length"] = lenClassNames[f.LenCls]
 	} else {
@@ -260,6 +260,21 @@ func c04Case(ctx *core.Ctx, out *core.Out, h int, server, comp bool, f nextFrame
 		}
 		return fr
 	}
+	// with compression negotiated, the message in progress is itself compressed in half of the
+	// cells: its fragments are DEFLATE stored blocks (non-final), so what inflates from them is known
+	compressedPartial := comp && class == rmViolation && (f.Op+f.Rsv+f.LenCls)%2 == 0
+	frag := func(first bool, fin bool, p string) wire.Frame {
+		op := 0
+		if first {
+			op = 1
+		}
+		fr := mk(op, fin, p)
+		if compressedPartial {
+			fr.Payload = append([]byte{0x00, byte(len(p)), 0, ^byte(len(p)), 0xff}, p...)
+			fr.Rsv1 = first
+		}
+		return fr
+	}
 	var pre []wire.Frame
 	var preMsgs []string // complete messages in the history
 	var prePings []string
@@ -272,13 +287,13 @@ func c04Case(ctx *core.Ctx, out *core.Out, h int, server, comp bool, f nextFrame
 		pre = append(pre, mk(9, true, "hp"))
 		prePings = append(prePings, "hp")
 	case 3:
-		pre = append(pre, mk(1, false, "frag1-"))
+		pre = append(pre, frag(true, false, "frag1-"))
 		partial = "frag1-"
 	case 4:
-		pre = append(pre, mk(1, false, "frag1-"), mk(0, false, "frag2-"))
+		pre = append(pre, frag(true, false, "frag1-"), frag(false, false, "frag2-"))
 		partial = "frag1-frag2-"
 	case 5:
-		pre = append(pre, mk(1, false, "frag1-"), mk(9, true, "hp"))
+		pre = append(pre, frag(true, false, "frag1-"), mk(9, true, "hp"))
 		prePings = append(prePings, "hp")
 		partial = "frag1-"
 	}
